@@ -210,7 +210,7 @@ func corruptBlock(res *Result, st *store.Store, info map[string]*blockInfo, orde
 			return nil, ""
 		}
 		old := u.Fanout
-		u.Fanout = []uint64{0, 1, 2, 3, 8, 16, 256, 1024, 2048, 1 << 63, 7, 1 << 20}[a%12]
+		u.Fanout = []uint64{0, 1, 2, 3, 8, 16, 256, 1024, 2048, 1 << 63, 7, 1 << 20, 1 << 40, 1 << 62}[a%14]
 		u.HasFanout = b%9 != 0
 		res.probe("fanout-rewrite")
 		if old != u.Fanout && u.HasFanout && u.Fanout >= 8 && u.Fanout <= 1024 && u.Fanout&(u.Fanout-1) == 0 {
